@@ -420,6 +420,7 @@ func main() {
 	nSplit := flag.Int("split", 60, "split cases")
 	nAsm := flag.Int("asm", 80, "assembler cases")
 	nConc := flag.Int("conc", 6, "concurrent connection-pair cases")
+	nStress := flag.Int("stress", 1, "rounds of the single-packet / multi-packet interleaving stress on one topic")
 	nSend := flag.Int("sendq", 12, "send-queue histories (run concurrently; each waits out at most two 10 s queue time-outs)")
 	nBack := flag.Int("backpressure", 2, "back-pressure cases (a full send queue, a large and a small message on one topic)")
 	outDir := flag.String("outdir", ".", "output directory")
@@ -441,6 +442,9 @@ func main() {
 	w4 := &sim.CaseWriter{OutDir: *outDir, Name: "c18send", Imports: imp, CaseType: "send_case", MFun: "send_mismatches", VFun: "send_violations", PerShard: 50}
 	sendQueueCases(r.Fork(), *nSend, w4)
 	w4.Close(st)
+	for k := 0; k < *nStress; k++ {
+		interleaveStress(*outDir, 8, 6000, 4, 100)
+	}
 	stopCases(r.Fork(), 20, *outDir)
 	heartbeatCases(3, *outDir)
 	fmt.Printf("c18: %d cases %v; concurrent: %d messages sent, %d delivered, %d bytes\n", st.Cases, st.Kinds, st.Sent, st.Recv, st.Bytes)
